@@ -4,6 +4,7 @@ The clock contract of trio (a sleep of d ends d later, the body takes no virtual
 assumption of the model (Model/Periodic.lean); under it:
 -/
 import CobaldVerif.Model.Periodic
+import CobaldVerif.Generated.Src
 import CobaldVerif.Props.C08
 import Mathlib.Data.Rat.Floor
 import Mathlib.Tactic.FieldSimp
@@ -166,5 +167,18 @@ theorem buffer_history : ∀ (es : List Ev) (b : BufSt),
 example : actTime false (5/2) 4 = 10 ∧ actTime true (5/2) 4 = 25/2 := by decide +kernel
 example : (runBuf ⟨3, 3⟩ [.write 7, .write 9, .step, .write 1]).map (·.target) = [3, 3, 9, 9] := by decide +kernel
 example : (⟨1/2, 1/2, 3⟩ : Linear).ok := by decide +kernel
+
+/-! ### the shape of the `run` loops as they stand in the source
+
+`Generated/Src.lean` is re-emitted from the text of the six `run` methods on every run: each is one
+endless loop with exactly one sleep of one period per iteration, placed last (act, then sleep) or
+first (sleep, then act).  The theorems above are instantiated accordingly (`actTime pre …`), and the
+driver of the correspondence reads `pre` from these constants. -/
+
+/-- the controllers and the Buffer act first and then sleep; the FactoryPool sleeps first -/
+theorem gen_loop_shapes :
+    Gen.sleepsFirstLinear = false ∧ Gen.sleepsFirstRel = false ∧ Gen.sleepsFirstSwitch = false ∧
+    Gen.sleepsFirstStepwise = false ∧ Gen.sleepsFirstBuffer = false ∧ Gen.sleepsFirstFactory = true := by
+  decide
 
 end Cobald.Props.C09
